@@ -193,6 +193,15 @@ fn damage_sure(src: &mut Src, case: &Case) -> Option<(String, &'static str, Scop
             }
             // inside content when the element has an explicit end tag, else right after it
             let at = if s.end - s.start > 2 { s.start } else { s.end };
+            // second form (drawn last): the same junk as the value of a namespace declaration,
+            // default or prefixed, on some start tag
+            if src.ratio(1, 4) {
+                if let Some(st) = pick_span(src, spans, |s| s.kind == ItemKind::ElementStart) {
+                    let decl = if src.bool() { "xmlns" } else { "xmlns:zz7" };
+                    let junk = ["&", "& ", "&;", "&#;", "&#x;", "&#xZZ;", "&nosuch;", "&amp", "<", "&#0;", "&#xFFFF;"][src.choice(11)];
+                    return Some((ins(st.end, &format!(" {}=\"u{}v\"", decl, junk)), "malformed_reference_in_namespace_declaration", Scope::Both));
+                }
+            }
             Some((ins(at, &w), "raw_markup_char_or_malformed_reference", Scope::Both))
         }
         12 => {
@@ -403,7 +412,14 @@ impl Property for C03 {
                     let s = match src.choice(3) {
                         0 => format!("<a>{}</a>", soup),
                         1 => format!("<a k=\"{}\"/>", soup.replace('"', "")),
-                        _ => format!("<a xmlns:p=\"{}\"/>", soup.replace('"', "")),
+                        _ => {
+                            // (drawn after the soup) prefixed or default declaration
+                            if src.bool() {
+                                format!("<a xmlns:p=\"{}\"/>", soup.replace('"', ""))
+                            } else {
+                                format!("<a xmlns=\"{}\"/>", soup.replace('"', ""))
+                            }
+                        }
                     };
                     let b = s.as_bytes().to_vec();
                     (s, b)
